@@ -160,7 +160,7 @@ pub fn run_memory(ctx: &Ctx, which: &str) {
                         judge_c04(ctx, &svc, &reqs, d, &run, "memory");
                     }
                 }
-                if idx % 9973 == 0 {
+                if idx % 9973 == 0 || ctx.want_sample() {
                     let run = run_mem(&svc, &reqs, len);
                     ctx.sample(json!({"requests": reqs.iter().map(|r| r.describe()).collect::<Vec<_>>(), "depth": len, "replies": show(&run.out), "closed": run.closed}));
                 }
